@@ -183,4 +183,9 @@ def cachingFuncCalls : List Bytes := [b!"cachingFunc(w,rr,nil,alwaysInclude,&rf,
     nothing is cut, limited or decoded in between ("accepted or rejected whole" starts here) -/
 def readMappingShape : List Bytes := [b!"if (url!=\"\") {req,err:=http.NewRequest(\"GET\",url,nil);if (err!=nil) {return nil,err};resp,err:=http.DefaultClient.Do(req);if (err!=nil) {return nil,err};defer resp.Body.Close();if (resp.StatusCode!=200) {return nil,fmt.Errorf(\"couldn't read mapping rules from URL %q: %s\",url,resp.Status)};return ioutil.ReadAll(resp.Body)} else if (path!=\"\") {return ioutil.ReadFile(path)}", b!"return nil,errors.New(\"no URL or path to mapping file\")"]
 
+/-- C12 C13: `cache.readerNotifier` (caching.go): the waiters of a key are read, woken and the key removed under ONE hold
+    of `waitingReadersLock`. The interleaving model's notify step is atomic because of this; a request that reaches the
+    lock table in between would register as a waiter of a key nobody will notify again (seeded change C12-m6). -/
+def readerNotifierShape : List Bytes := [b!"if (c.closeNotifier==nil) {return }", b!"for {c.logger.Debugf(\"readerNotifier (%p) waiting for Key\",c.closeNotifier);verifPointS(\"notifier.idle\",\"\");ki:=<-*c.closeNotifier;verifPointS(\"notifier.got\",ki.Key.FsName());k:=ki.Key;rk:=k.FsName();c.logger.Debugf(\"readerNotifier (%p) got Key: %v / %v\",c.closeNotifier,(k.host+k.path),rk);c.waitingReadersLock.Lock();if readers,exists:=c.waitingReaders[rk]; exists {c.logger.Debugf(\"readerNotifier (%p) notifying %v (%p) with: %v / %v\",c.closeNotifier,len(readers),&c.waitingReaders,(k.host+k.path),rk);range i,ct:readers{c.logger.Debugf(\"readerNotifier notifying %v, ch (%p)\",i,ct.ch);*ct.ch<-ki};delete(c.waitingReaders,rk)} else {c.logger.Debugf(\"readerNotifier (%p) nothing to notify: %v / %v\",c.closeNotifier,(k.host+k.path),rk)};c.waitingReadersLock.Unlock();verifPointS(\"notifier.done\",rk)}"]
+
 end Spec
